@@ -6,6 +6,11 @@
     catalogue, per filesystem profile) and executed by harness/filedrv.c through the public API on filesystems made
     by the built mke2fs; every logged line is validated by TLC against Trace_FileData (every read result = model,
     sizes, frame condition, mapped/unmapped blocks, consistency at close).
+(2b) Space accounting (spec/SpaceAcct.tla, model-checked; its relations are conjoined with every trace line): every
+    line carries the accounting record of the driver (free counts, units mapped / i_blocks per file, units marked but
+    unmapped, mapped but unmarked, mapped twice).  Two spec-enumerated families are added to the universe
+    (Emit_SpaceLadder): the ENOSPC LADDER (tree-growth situation x r = 0..6 free units x operation) and the SESSION
+    SHAPES (one allocating operation per open..close session of the filesystem, all ordered pairs).
 (3) ExtentMap / IndMap conformance: implementation tests per transition class; the leaf-extent list / the set of
     mapped blocks after the call must be what the transcription computes (Trace_ExtentMap, Trace_IndMap)."""
 import os, sys, json, random, shutil, subprocess, time, itertools, concurrent.futures as cf
@@ -27,7 +32,13 @@ PROFILES = {
     "bigalloc": dict(mkfs=["-t", "ext4", "-O", "^has_journal,bigalloc", "-C", "16384", "-b", "1024"], size="32M", bs=1024, cl=16, kind=0, map="extent"),
     "inline":   dict(mkfs=["-t", "ext4", "-O", "^has_journal,inline_data", "-b", "1024"], size="16M", bs=1024, cl=1, kind=1, map="inline"),
     "full":     dict(mkfs=["-t", "ext4", "-O", "^has_journal", "-b", "1024"], size="8M", bs=1024, cl=1, kind=0, map="extent", fill=40),
+    # ENOSPC ladder: small filesystems, filled down to LADDER_ROOM free blocks (the preludes of the deepest situations
+    # need ~700); the ballast of each history absorbs the rest
+    "lad_ext4": dict(mkfs=["-t", "ext4", "-O", "^has_journal", "-b", "1024"], size="4M", bs=1024, cl=1, kind=0, map="extent", fill=1000),
+    "lad_ext2": dict(mkfs=["-t", "ext2", "-b", "1024"], size="4M", bs=1024, cl=1, kind=0, map="ind", fill=1000),
 }
+DEV_FALLOC = "DevFallocLeakOnInsertFail"      # named deviation = key of the known finding (SpaceAcct!DevFallocLeak)
+SPACE_CONSTS = dict(NOwn=3, Units=0, MaxFree=6, MaxMeta=2, RootSlots=4, LeafCap=84, AddrPB=256)
 INLINE_MAX = 60 + 96      # inline area limit of a 256-byte inode is probed per build (see probe_inline_max); this is only a default
 
 
@@ -168,22 +179,24 @@ def gen_history(rng, tabs, bs, nops, obs):
     return lines
 
 
-def header(pname, tabs):
+def header(pname, tabs, meta=None):
     k = PROFILES[pname]["kind"]
-    return ["mkfile 0 %d" % k, "mkfile 1 %d" % k,
+    return ["mkfile 0 %d" % k, "mkfile 1 %d" % k] + (["mkballast"] if meta and meta.get("strict") else []) + [
             "cuts 0 %d %s" % (NCUTS, " ".join(map(str, tabs[0]["cuts"]))),
-            "cuts 1 %d %s" % (NCUTS, " ".join(map(str, tabs[1]["cuts"])))]
+            "cuts 1 %d %s" % (NCUTS, " ".join(map(str, tabs[1]["cuts"]))), "begin"]
 
 
-KEEP = ("e", "f", "a", "b", "tag", "mode", "ret", "full")
+KEEP = ("e", "f", "a", "b", "tag", "mode", "ret", "full", "acct")
+DEFAULTS = (("path", []), ("nd", 0), ("dcut", -9), ("pair", 0))
 
 
 def execute(job):
     """Run one history; returns dict(trace=[ndjson lines], crash=None|str, raw=[driver lines], detail=str)."""
-    b, drv, tmpl, wdir, idx, pname, tabs, body = job
+    b, drv, tmpl, wdir, idx, pname, tabs, body = job[:8]
+    meta = job[8] if len(job) > 8 else {}
     img = os.path.join(wdir, "h%06d.img" % idx)
     shutil.copyfile(tmpl, img)
-    script = "\n".join(header(pname, tabs) + body) + "\n"
+    script = "\n".join(header(pname, tabs, meta) + body) + "\n"
     bs = PROFILES[pname]["bs"]
     try:
         pr = subprocess.run([drv, img], input=script.encode(), stdout=subprocess.PIPE, stderr=subprocess.PIPE, env=tool_env(b), timeout=600)
@@ -200,12 +213,15 @@ def execute(job):
     al = [[1 if c % bs == 0 else 0 for c in tb["cuts"]] for tb in tabs]
     uok = [0 if PROFILES[pname]["map"] == "ind" else 1] * 2
     eofc = [[max(i for i, c in enumerate(tb["cuts"]) if c <= -(-s // bs) * bs) for s in tb["cuts"]] for tb in tabs]
-    tr = [json.dumps({"e": "reset", "al": al, "uok": uok, "eofc": eofc}, separators=(",", ":"))]
+    tr = [json.dumps({"e": "reset", "al": al, "uok": uok, "eofc": eofc, "strict": 1 if meta.get("strict") else 0,
+                      "sit": meta.get("sit", ""), "lad": meta.get("lad", ""), "id": idx}, separators=(",", ":"))]
     last = None
     for l in raw:
         d = json.loads(l)
         last = d
         o = {k: d[k] for k in KEEP}
+        for k, dv in DEFAULTS:
+            o[k] = d.get(k, dv)
         o["inl"] = d["inl"]
         o["fs"] = [{"obs": x["obs"], "size": x["size"], "len": x["len"], "c": x["c"], "m": x["m"]} for x in d["fs"]]
         if d["e"] == "final":
@@ -235,7 +251,8 @@ def bad_detail(raw, k):
         for g, x in enumerate(d["fs"]):
             if x.get("obs"):
                 bits.append("f%d size=%s len=%s cells=%s mapped=%s %s" % (g, x.get("bsize"), x.get("blen"), x["c"], x["m"], x.get("bad", "")))
-        return "%s f=%d a=%d b=%d ret=%d err=%s | %s" % (d["e"], d["f"], d["a"], d["b"], d["ret"], d.get("err"), " ; ".join(bits))
+        return "%s f=%d a=%d b=%d ret=%d err=%s acct=%s path=%s | %s" % (d["e"], d["f"], d["a"], d["b"], d["ret"], d.get("err"),
+                json.dumps(d.get("acct"), separators=(",", ":")), d.get("path"), " ; ".join(bits))
     return ""
 
 
@@ -610,7 +627,7 @@ def plan(tier, rng):
         profs = ["ext4_1k", "ext2_1k", "bigalloc", "inline", "full", "ext4_4k"]
         per_table, nops = 7, 9
     else:
-        profs = list(PROFILES)
+        profs = [x for x in PROFILES if not x.startswith("lad_")]
         per_table, nops = 60, 14
     for pn in profs:
         tbs = tables(pn, tier)
@@ -626,6 +643,57 @@ def plan(tier, rng):
     return jobs
 
 
+def space_universe(work):
+    """The ENOSPC ladder and the session shapes, enumerated by TLC from SpaceAcct (Emit_SpaceLadder)."""
+    out = os.path.join(work, "space_universe.json")
+    r = T.tlc(os.path.join(SPEC, "Emit_SpaceLadder.tla"), os.path.join(SPEC, "Emit_SpaceLadder.cfg"), workers=1, timeout=300, env={"OUT": out}, xmx="1g")
+    if not r.ok or not os.path.exists(out):
+        die_broken("TLC could not enumerate the ladder universe (Emit_SpaceLadder): %s\n%s" % (r.error, r.out[-1500:]))
+    u = json.load(open(out))
+    u["ladder"].sort(key=lambda e: (e["sit"], e["op"], e["r"]))
+    u["shapes"].sort(key=lambda sh: [(st["op"], st["f"]) for st in sh])
+    return u
+
+
+def plan_ladder(univ):
+    """One history per ladder element: prelude establishing the situation, setfree r, the operation, read-back of both files."""
+    jobs = []
+    for e in univ["ladder"]:
+        pn = "lad_ext4" if e["kind"] == "extent" else "lad_ext2"
+        bs = PROFILES[pn]["bs"]
+        pre, at = e["pre"], e["at"]
+        if e["kind"] == "extent":         # [0, pre) prelude, [pre, at) the hole that keeps the new extent apart
+            cb = [0, pre, at, at + 1, at + 2, at + 3, at + 4]
+            prelude = ["iwrite 0 1 1 0 1 2"]
+        else:                              # dense prelude [0, at): the block map has no holes to keep
+            cb = [0, at - 1, at, at + 1, at + 2, at + 3, at + 4]
+            prelude = ["write 0 0 2 1", "write 1 0 2 2"]
+        tb = dict(name="lad_" + e["sit"], cuts=[c * bs for c in cb], pre=0)
+        op = ("write 0 2 %d 3" % (2 + e["n"])) if e["mode"] < 0 else ("falloc 0 2 %d %d" % (2 + e["n"], e["mode"]))
+        body = ["obs 1"] + prelude + ["setfree %d" % e["r"], op, "read 1", "read 0", "end"]
+        jobs.append((pn, (tb, tb), body, dict(strict=1, sit=e["sit"], lad=e["op"], r=e["r"])))
+    return jobs
+
+
+def plan_sessions(univ, tier, rng):
+    """Session shapes: every operation in its own open..close session of the filesystem; after the last one both files are
+    read back from disk.  All ordered pairs on ext4_1k; a seeded sample on the other mapping types."""
+    jobs = []
+    shapes = univ["shapes"]
+    for pn in ("ext4_1k", "bigalloc", "ext4_4k", "ext2_1k"):
+        tb = [t for t in tables(pn, tier) if t["name"] == "aligned"][0]
+        pick = shapes if (pn == "ext4_1k" or tier != "quick") else rng.sample(shapes, 12)
+        for sh in pick:
+            body = ["obs 1", "remount"]
+            for i, st in enumerate(sh):
+                body.append(("write %d %d %d %d" % (st["f"], st["a"], st["b"], i + 1)) if st["mode"] < 0 else
+                            ("falloc %d %d %d %d" % (st["f"], st["a"], st["b"], st["mode"])))
+                body.append("remount")
+            body += ["read 0", "read 1", "end"]
+            jobs.append((pn, (tb, tb), body, dict(shape="%s%d>%s%d" % (sh[0]["op"], sh[0]["f"], sh[1]["op"], sh[1]["f"]))))
+    return jobs
+
+
 def run_filedata(b, drv, tier, work, ev, vd, rng):
     global INLINE_MAX
     jobs = plan(tier, rng)
@@ -638,10 +706,16 @@ def run_filedata(b, drv, tier, work, ev, vd, rng):
     hist = []
     for idx, (pn, tabs, nops, obs) in enumerate(jobs):
         body = gen_history(rng, tabs, PROFILES[pn]["bs"], nops, obs)
-        hist.append((b, drv, tm[pn], work, idx, pn, tabs, body))
+        hist.append((b, drv, tm[pn], work, idx, pn, tabs, body, {}))
+    # spec-enumerated families: ENOSPC ladder and session shapes
+    univ = space_universe(work)
+    fam = plan_ladder(univ) + plan_sessions(univ, tier, rng)
+    tm.update(make_templates(b, work, sorted({j[0] for j in fam} - set(tm))))
+    for (pn, tabs, body, meta) in fam:
+        hist.append((b, drv, tm[pn], work, len(hist), pn, tabs, body, meta))
     with cf.ThreadPoolExecutor(max_workers=JOBS) as ex:
         results = list(ex.map(execute, hist))
-    return check_results(b, hist, results, work, ev, vd, tier)
+    return check_results(b, hist, results, work, ev, vd, tier, univ)
 
 
 def probe_inline_max(b, drv, tmpl, work):
@@ -672,8 +746,8 @@ def classify(pn, tabs, body, raw, k, inv, crash):
 
 def validate_all(tb, mod, cfg, work, chunk_lines, maxfail=40):
     """Validate every behaviour: chunks of <= chunk_lines lines, one TLC run each; when a chunk is rejected the behaviour
-    holding the first unmatched line is set aside and the rest of that chunk is validated again.  Returns (set of
-    failing behaviour indices, distinct, generated)."""
+    holding the first unmatched line is set aside and the rest of that chunk is validated again as one chunk.  Returns
+    (set of failing behaviour indices, distinct, generated)."""
     groups, cur, n = [], [], 0
     for i, t in enumerate(tb):
         if cur and n + len(t) > chunk_lines:
@@ -682,69 +756,146 @@ def validate_all(tb, mod, cfg, work, chunk_lines, maxfail=40):
     if cur:
         groups.append(cur)
     failing, dist, gen = set(), 0, 0
+    rnd = [0]
     def one(g):
-        d = os.path.join(work, "g%d_%d" % (g[0], len(g)))
+        d = os.path.join(work, "g%d_%d_%d" % (rnd[0], g[0], len(g)))
         os.makedirs(d, exist_ok=True)
-        return g, tracecheck.validate([tb[i] for i in g], mod, cfg, d, chunk_lines=10 ** 9, jobs=1)
+        p = os.path.join(d, "chunk.ndjson")
+        with open(p, "w") as f:
+            for i in g:
+                f.write("\n".join(tb[i]) + "\n")
+        return g, tracecheck._run_chunk((mod, cfg, p, sum(len(tb[i]) for i in g), 900, False))
     while groups:
+        rnd[0] += 1
         with cf.ThreadPoolExecutor(max_workers=JOBS) as ex:
             out = list(ex.map(one, groups))
         groups = []
-        for g, res in out:
-            dist += res["distinct"]; gen += res["generated"]
-            if res["broken"]:
-                die_broken("TLC failed on a trace chunk: %s\n%s" % (res["broken"][0]["error"], res["broken"][0]["out_tail"][-1500:]))
-            for f in res["failures"]:
-                k = f["behaviour"]
-                failing.add(g[k])
-                if g[k + 1:]:
-                    groups.append(g[k + 1:])
+        for g, r in out:
+            dist += r["distinct"]; gen += r["generated"]
+            if r["accepted"]:
+                continue
+            if r["error"] and r["violated"] is None and not re_rejected(r["out_tail"]):
+                die_broken("TLC failed on a trace chunk: %s\n%s" % (r["error"], r["out_tail"][-1500:]))
+            m = r["matched"] if r["matched"] is not None else 0
+            pos, k = 0, len(g) - 1
+            for j, i in enumerate(g):
+                if m < pos + len(tb[i]):
+                    k = j; break
+                pos += len(tb[i])
+            failing.add(g[k])
+            if g[k + 1:]:
+                groups.append(g[k + 1:])
         if len(failing) >= maxfail:
             break
     return failing, dist, gen
 
 
-def check_results(b, hist, results, work, ev, vd, tier):
+def read_notes(root):
+    """Notes written by Trace_FileData!Record next to the trace files: <<sit, r, op, outcome>> ladder elements seen in accepted
+    ladder histories, and the ids of accepted histories in which the named deviation DevFallocLeak shows."""
+    seen, dev = set(), set()
+    for dp, _, fns in os.walk(root):
+        for fn in fns:
+            if fn.endswith(".note.json"):
+                try:
+                    d = json.load(open(os.path.join(dp, fn)))
+                    for t in d["lad"]:
+                        seen.add((t[0], int(t[1]), t[2], int(t[3])))
+                    dev |= {int(x) for x in d["dev"]}
+                except (ValueError, OSError, IndexError, KeyError):
+                    pass
+                os.unlink(os.path.join(dp, fn))
+    return seen, dev
+
+
+def check_results(b, hist, results, work, ev, vd, tier, univ=None):
     for h, r in zip(hist, results):
         if r.get("broken"):
-            die_broken("%s (profile %s, script %s)" % (r["broken"], h[5], h[7][:6]))
+            die_broken("%s (profile %s, script %s)" % (r["broken"], h[5], h[7][:8]))
     tb = [r["trace"] for r in results]
     mod, cfg = os.path.join(SPEC, "Trace_FileData.tla"), os.path.join(SPEC, "Trace_FileData.cfg")
+    cfg_strict = os.path.join(SPEC, "Trace_FileData_strict.cfg")
     failing, dist, gen = validate_all(tb, mod, cfg, work, 2500 if tier == "quick" else 8000)
     ev.cov["states"] += dist; ev.cov["transitions"] += gen
     ev.cov["trace_lines_validated"] = sum(len(t) for t in tb)
+    seen, dev = read_notes(work)
     # a crashed driver leaves a trace without a final line: always look at it on its own
     failing |= {i for i, r in enumerate(results) if r["crash"]}
     nfail = 0
     for bi in sorted(failing):
         rej, matched, inv, tail, _ = tracecheck.confirm(tb[bi], mod, cfg, work)     # re-run alone before reporting
+        s2, d2 = read_notes(work)
+        seen |= s2; dev |= d2
         r = results[bi]
         if not rej and not r["crash"]:
             continue
-        _, _, _, _, _, pn, tabs, body = hist[bi]
+        pn, tabs, body = hist[bi][5], hist[bi][6], hist[bi][7]
+        meta = hist[bi][8] if len(hist[bi]) > 8 else {}
         k = (matched if matched is not None else 0) - 1        # index among the op lines (line 0 is the reset)
+        if rej and inv and k > 0:
+            k -= 1                                             # an invariant fails IN the state after the line: that line is the culprit
         crashed = bool(r["crash"]) and not rej
         if crashed:
             k = len(r["raw"])
+        det = bad_detail(r["raw"], k)
         nfail += 1
         key = classify(pn, tabs, body, r["raw"], k, inv, crashed)
-        det = bad_detail(r["raw"], k)
         if k < len(r["raw"]) and json.loads(r["raw"][k])["e"] == "final" and r["detail"]:
             det += " || " + r["detail"]
-        what = "%s on %s/%s+%s at operation %d: %s" % (("library crash: " + r["crash"]) if crashed else ("invariant %s violated" % inv if inv else "trace rejected (implementation diverges from FileData)"),
-                                                    pn, tabs[0]["name"], tabs[1]["name"], k, det[:600])
-        vd.violation(key, what, {"kind": "filedata", "profile": pn, "tables": [tabs[0], tabs[1]], "script": body, "first_unmatched_op": k, "inline_max": INLINE_MAX,
+        what = "%s on %s/%s+%s%s at operation %d: %s" % (("library crash: " + r["crash"]) if crashed else ("invariant %s violated" % inv if inv else "trace rejected (implementation diverges from FileData / SpaceAcct)"),
+                                                    pn, tabs[0]["name"], tabs[1]["name"], (" [%s]" % json.dumps(meta, sort_keys=True)) if meta else "", k, det[:700])
+        vd.violation(key, what, {"kind": "filedata", "profile": pn, "tables": [tabs[0], tabs[1]], "script": body, "meta": meta, "first_unmatched_op": k, "inline_max": INLINE_MAX,
                                  "driver_lines": r["raw"][max(0, k - 2):k + 1], "tlc_tail": tail[-800:]})
+    # accepted by the conformance configuration (DevFallocLeak enabled) but only through the deviation: the known finding.
+    # Once per run the link to the property is re-established: such a behaviour must fail the invariant NoFallocLeak (and nothing else).
+    dev = sorted(i for i in dev if 0 <= i < len(hist) and i not in failing)
+    if dev:
+        rej, matched, inv, tail, _ = tracecheck.confirm(tb[dev[0]], mod, cfg_strict, work)
+        read_notes(work)
+        if not (rej and inv == "NoFallocLeak"):
+            die_broken("a behaviour noted as taking DevFallocLeak does not violate NoFallocLeak: %s" % tail[-800:])
+    for bi in dev:
+        pn, tabs, body = hist[bi][5], hist[bi][6], hist[bi][7]
+        meta = hist[bi][8] if len(hist[bi]) > 8 else {}
+        fal = [json.loads(x) for x in results[bi]["raw"]]
+        fal = [x for x in fal if x["acct"]["stray"] > 0][:1]
+        ev.cov.setdefault("known_deviation_behaviours", []).append("%s/%s %s" % (pn, tabs[0]["name"], (meta.get("lad", "") + " r=%s" % meta["r"]) if "r" in meta else "random"))
+        vd.violation(DEV_FALLOC, "fallocate leaks the range it claimed on %s/%s: %s" % (pn, tabs[0]["name"], json.dumps(fal[0]["acct"]) if fal else ""),
+                     {"kind": "filedata", "profile": pn, "tables": [tabs[0], tabs[1]], "script": body, "meta": meta, "inline_max": INLINE_MAX})
     ev.cov["traces_validated_against_impl"] += len(tb) - nfail
     ev.cov["evaluations"] += len(tb)
     for h in hist:
-        _, _, _, _, _, pn, tabs, body = h
+        pn, tabs, body = h[5], h[6], h[7]
         if nontrivial(body, tabs, PROFILES[pn]["bs"]):
             ev.nontrivial((pn, tabs[0]["name"], tuple(tabs[0]["cuts"]), tuple(body)))
     for i in (0, len(hist) // 3, 2 * len(hist) // 3):
         if i < len(hist):
             ev.sample({"profile": hist[i][5], "cuts_f0": hist[i][6][0]["cuts"], "script": hist[i][7][:12], "last_trace_line": json.loads(tb[i][-1]) if tb[i] else None})
+    if univ is not None:
+        ladder_coverage(univ, hist, seen, nfail, ev)
     return nfail
+
+
+def ladder_coverage(univ, hist, seen, nfail, ev):
+    """Vacuity guard: every ladder element SpaceAcct defines was issued in the situation it names (TLC: SitHolds on the observed tree
+    path) with exactly r units free, and every (situation, operation) column shows both a success and an ENOSPC outcome."""
+    want = {(e["sit"], e["r"], e["op"]) for e in univ["ladder"]}
+    got = {(s, r, o) for (s, r, o, _) in seen}
+    out = {}
+    for (s, r, o, oc) in seen:
+        out.setdefault((s, o), set()).add(oc)
+    ev.cov["ladder"] = {"elements": len(want), "reached": len(want & got),
+                        "outcomes": {"%s/%s" % k: "".join(str(seen_oc) for seen_oc in sorted(v)) for k, v in sorted(out.items())},
+                        "by_r": {str(r): sorted({"%s/%s:%d" % (s, o, oc) for (s, rr, o, oc) in seen if rr == r}) for r in range(0, 7)},
+                        "session_shapes": sum(1 for h in hist if len(h) > 8 and h[8].get("shape"))}
+    if nfail:
+        return          # a rejected ladder history is reported as such; it cannot also count as reached
+    missing = sorted(want - got)
+    if missing:
+        die_broken("vacuity: %d ladder elements were not reached in the situation they name (harness did not establish it?): %s" % (len(missing), missing[:8]))
+    onesided = sorted(k for k in {(s, o) for (s, r, o) in want} if not (0 in out.get(k, ()) and (out.get(k, set()) & {1, 2})))
+    if onesided:
+        die_broken("vacuity: ladder columns without both a success and an ENOSPC outcome: %s" % onesided)
 
 
 def run(tier):
@@ -790,7 +941,7 @@ def replay(path):
         pn = rp["profile"]
         INLINE_MAX = rp.get("inline_max", INLINE_MAX)
         tm = make_templates(b, work, [pn])
-        r = execute((b, drv, tm[pn], work, 0, pn, rp["tables"], rp["script"]))
+        r = execute((b, drv, tm[pn], work, 0, pn, rp["tables"], rp["script"], rp.get("meta", {})))
         if r.get("broken"):
             die_broken(r["broken"])
         mod, cfg = os.path.join(SPEC, "Trace_FileData.tla"), os.path.join(SPEC, "Trace_FileData.cfg")
